@@ -196,6 +196,27 @@ impl LogInnerManager {
             need_seek_at_write: false,
             split_off_index: std::cmp::max(split_off_index, start_index),
         };
+        // index entries are positional (the n-th entry stands for record n * index_interval). A crash between
+        // the write of the record that completes an interval and the write of its entry leaves the entry
+        // missing; it is completed here, otherwise the entry written index_interval records later would be
+        // taken for it after the next open and every later record would be numbered index_interval too low.
+        let last_indexed = this.indexs.last().unwrap().clone();
+        let since_last_entry = this.start_index + this.msg_count - last_indexed.log_index;
+        if since_last_entry == this.header.index_interval as u64
+            && this.index_cursor + 10 < this.header.data_area_index as u64
+        {
+            let index_data = write_varint64(this.data_cursor - last_indexed.file_index);
+            this.index_file
+                .seek(SeekFrom::Start(this.index_cursor))
+                .await?;
+            this.index_file.write_all(&index_data).await?;
+            this.index_file.flush().await?;
+            this.index_cursor += index_data.len() as u64;
+            this.indexs.push(InnerIdxDto {
+                log_index: this.msg_count + this.header.first_index,
+                file_index: this.data_cursor,
+            });
+        }
         if msg_count > 0 {
             let end_index = this.get_end_index();
             if let Ok(logs) = this.read_records(end_index - 1, end_index).await {
